@@ -166,9 +166,9 @@ theorem wk0_stepCreated {p : Pool} {t : Nat} (h : WK (ET t) p) (tk : PTask) : WK
     · exact wk0_afterWorker h0 _
     · exact wk0_suspendTask (wk_modTask_ex h0 t _ rfl) _ (Or.inl rfl)
 
-theorem wk0_workerNext {p : Pool} {t : Nat} (h : WK (ET t) p) : WK0 (p.workerNext t) := by
+theorem wk0_workerNext {p : Pool} {t : Nat} (h : WK (ET t) p) (tk : PTask) : WK0 (p.workerNext t tk) := by
   unfold workerNext
-  exact wk0_suspendTask (wk_modTask_ex (wk_logEv h _) t _ rfl) _ (Or.inl rfl)
+  exact wk0_suspendTask (wk_runHooks (wk_modTask_ex (wk_logEv h _) t _ rfl) _ _) _ (Or.inl rfl)
 
 theorem wk0_workerCancelled {p : Pool} {t : Nat} (h : WK (ET t) p) (tk : PTask) : WK0 (p.workerCancelled t tk) := by
   unfold workerCancelled
@@ -202,7 +202,7 @@ theorem wk0_stepInWorker {p : Pool} {t : Nat} (h : WK (ET t) p) (tk : PTask)
   · rename_i hc
     split
     · split
-      · exact wk0_workerNext h
+      · exact wk0_workerNext h tk
       · exact wk0_afterWorker h _
     · exact wk0_afterWorker h _
     · rename_i h1 h2
